@@ -117,6 +117,67 @@ Proof.
   destruct (fill (repeat r0 (length eqs)) 0%nat eqs) as [w k]. simpl in *.
   destruct offset; simpl; split; apply (H4 e He).
 Qed.
+
+(* ---- w_offset as the loop of solve_simple computes it (per-system equation counts) ---- *)
+Lemma offset_of_cons eqs r s : offset_of (eqs :: r) (S s) = (length eqs + offset_of r s)%nat.
+Proof. reflexivity. Qed.
+
+Lemma running_offsets_nth sys : forall k s, (s < length sys)%nat ->
+  nth s (running_offsets M k sys) 0%nat = (k + offset_of sys s)%nat.
+Proof.
+  induction sys as [|eqs r IH]; intros k s Hs; simpl in Hs; [lia|].
+  destruct s as [|s]; cbn [running_offsets nth].
+  - unfold WeightModel.offset_of; simpl. lia.
+  - rewrite IH by lia. rewrite offset_of_cons. lia.
+Qed.
+
+Lemma running_offsets_length sys : forall k, length (running_offsets M k sys) = length sys.
+Proof. induction sys; intros k; simpl; auto. Qed.
+
+(* the loop form reads the same element as the offset form of simple_index *)
+Lemma simple_index_loop_eq (sys : systems M) (s e : nat) :
+  (s < length sys)%nat -> simple_index_loop M sys s e = simple_index M true sys s e.
+Proof.
+  intros Hs. unfold simple_index_loop, simple_index. rewrite running_offsets_nth by exact Hs. lia.
+Qed.
+
+(* hence: with w_offset advanced by each system's OWN equation count, every equation of every
+   system -- whatever the sizes of the systems -- is multiplied by the weight of its own
+   measurement *)
+Lemma weights_aligned_loop (sys : systems M) (s e : nat) :
+  (s < length sys)%nat -> (e < length (nth s sys []))%nat ->
+  weight_simple_loop M R wt r0 sys s e = own_weight M R wt m0 sys s e.
+Proof.
+  intros Hs He. unfold weight_simple_loop. rewrite simple_index_loop_eq by exact Hs.
+  exact (proj1 (weights_aligned sys s e Hs He)).
+Qed.
+
+(* the closed form "sindex * equations" reads the right element exactly when the systems before
+   s hold s times the count of system s ... *)
+Lemma closed_form_iff (sys : systems M) (s e : nat) :
+  simple_index_closed M sys s e = simple_index M true sys s e <->
+  offset_of sys s = (s * length (nth s sys []))%nat.
+Proof. unfold simple_index_closed, simple_index. lia. Qed.
+
+Lemma offset_of_equal_sizes (L : nat) (sys : systems M) :
+  (forall q, In q sys -> length q = L) -> forall s, (s <= length sys)%nat -> offset_of sys s = (s * L)%nat.
+Proof.
+  induction sys as [|eqs r IH]; intros Hall s Hs; simpl in Hs.
+  - assert (s = 0%nat) by lia. subst. reflexivity.
+  - destruct s as [|s]; [reflexivity|].
+    rewrite offset_of_cons, IH; [|intros q Hq; apply Hall; right; exact Hq|lia].
+    rewrite (Hall eqs (or_introl eq_refl)). lia.
+Qed.
+
+(* ... in particular when all systems have the same number of equations (which is why a
+   calibration with equally sized column systems cannot tell the two forms apart) *)
+Lemma closed_form_equal_sizes (L : nat) (sys : systems M) (s e : nat) :
+  (forall q, In q sys -> length q = L) -> (s < length sys)%nat ->
+  simple_index_closed M sys s e = simple_index M true sys s e.
+Proof.
+  intros Hall Hs. apply closed_form_iff. rewrite (offset_of_equal_sizes L sys Hall s) by lia.
+  rewrite (Hall (nth s sys [])); [reflexivity | apply nth_In; exact Hs].
+Qed.
 End P.
 
 (* ---- degrees of freedom ---- *)
@@ -150,6 +211,93 @@ Proof.
   unfold dof, dof_systems. rewrite dof_leakage_acc, dof_systems_acc. nia.
 Qed.
 
+(* ---- leakage cells with 0, 1 and more samples ---- *)
+Lemma leak_term_cases n : (n <= 1 -> leak_term n = 0) /\ (1 < n -> leak_term n = 2 * (n - 1)).
+Proof.
+  unfold leak_term. split; intros H.
+  - destruct (Z.ltb 1 n) eqn:E; [apply Z.ltb_lt in E; lia | reflexivity].
+  - destruct (Z.ltb 1 n) eqn:E; [reflexivity | apply Z.ltb_ge in E; lia].
+Qed.
+
+Lemma leak_term_nonneg n : 0 <= leak_term n.
+Proof. unfold leak_term. destruct (Z.ltb 1 n) eqn:E; [apply Z.ltb_lt in E; lia | lia]. Qed.
+
+Lemma zsum_leak_nonneg l : 0 <= zsum (map leak_term l).
+Proof.
+  unfold zsum. induction l as [|n r IH]; cbn [map fold_right]; [lia|].
+  pose proof (leak_term_nonneg n). lia.
+Qed.
+
+(* the leakage cells never take degrees of freedom away, whatever their sample counts
+   (0 included) *)
+Lemma dof_leakage_never_subtracts unknowns eq_counts leak_counts :
+  dof_systems unknowns eq_counts <= dof unknowns eq_counts leak_counts.
+Proof.
+  unfold dof. rewrite dof_leakage_acc. pose proof (zsum_leak_nonneg leak_counts). lia.
+Qed.
+
+(* cells with at most one sample (none when every standard connects the two ports) do not
+   change the count *)
+Lemma dof_few_samples unknowns eq_counts leak_counts :
+  (forall n, In n leak_counts -> n <= 1) ->
+  dof unknowns eq_counts leak_counts = dof unknowns eq_counts [].
+Proof.
+  intros H. rewrite !dof_count. cbn [map]. f_equal.
+  unfold zsum. induction leak_counts as [|n r IH]; cbn [map fold_right]; [reflexivity|].
+  rewrite (proj1 (leak_term_cases n)) by (apply H; left; reflexivity).
+  rewrite IH; [reflexivity | intros k Hk; apply H; right; exact Hk].
+Qed.
+
+Definition is_sample (gc : bool * bool) : bool := (fst gc && negb (snd gc))%bool.
+
+Lemma leak_count_acc stds : forall acc,
+  fold_left (fun n gc => if is_sample gc then n + 1 else n) stds acc =
+  acc + Z.of_nat (length (filter is_sample stds)).
+Proof.
+  induction stds as [|gc r IH]; intros acc; cbn [fold_left filter length]; [simpl; lia|].
+  rewrite IH. destruct (is_sample gc); cbn [length]; [rewrite Nat2Z.inj_succ|]; lia.
+Qed.
+
+(* vnlt_count = number of standards that measured the cell and do not connect its ports *)
+Lemma leak_count_spec stds : leak_count stds = Z.of_nat (length (filter is_sample stds)).
+Proof.
+  unfold leak_count. transitivity (0 + Z.of_nat (length (filter is_sample stds))); [|lia].
+  exact (leak_count_acc stds 0).
+Qed.
+
+Lemma leak_count_all_connected stds :
+  (forall gc, In gc stds -> snd gc = true) -> leak_count stds = 0.
+Proof.
+  intros H. rewrite leak_count_spec.
+  assert (E : filter is_sample stds = []).
+  { induction stds as [|gc r IH]; [reflexivity|]. cbn [filter]. unfold is_sample at 1.
+    rewrite (H gc (or_introl eq_refl)). rewrite Bool.andb_false_r.
+    apply IH. intros g Hg. apply H. right. exact Hg. }
+  rewrite E. reflexivity.
+Qed.
+
+(* when every standard connects every pair of ports the leakage cells have no samples and the
+   degrees of freedom are those of the linear systems alone *)
+Lemma dof_all_connected unknowns eq_counts (cells : list (list (bool * bool))) :
+  (forall c, In c cells -> forall gc, In gc c -> snd gc = true) ->
+  dof_of_standards unknowns eq_counts cells =
+  2 * (zsum eq_counts - Z.of_nat (length eq_counts) * unknowns).
+Proof.
+  intros H. unfold dof_of_standards. rewrite dof_few_samples.
+  - rewrite dof_count. unfold zsum at 2. cbn [map fold_right]. lia.
+  - intros n Hn. apply in_map_iff in Hn. destruct Hn as (c & E & Hc). subst n.
+    rewrite (leak_count_all_connected c (H c Hc)). lia.
+Qed.
+
+(* the unguarded variant subtracts two degrees of freedom for every cell without samples *)
+Lemma dof_leakage_unguarded_acc l : forall acc,
+  dof_leakage_unguarded l acc = acc + 2 * zsum l - 2 * Z.of_nat (length l).
+Proof.
+  unfold dof_leakage_unguarded, zsum. induction l as [|n r IH]; intros acc; cbn [fold_left fold_right length].
+  - lia.
+  - rewrite IH. rewrite Nat2Z.inj_succ. lia.
+Qed.
+
 (* an exactly determined calibration without leakage samples has no degree of freedom *)
 Lemma dof_exactly_determined unknowns k :
   dof unknowns (repeat unknowns k) [] = 0.
@@ -170,6 +318,22 @@ Lemma exactly_determined_never_rejected (tail : Z -> Qc -> Qc) (unknowns : Z) (k
 Proof.
   intros Hl. rewrite dof_exactly_determined. unfold pvalue_of. simpl. split; [reflexivity|].
   unfold rejected. destruct (Qclt_le_dec 1 limit) as [H|H]; [|reflexivity].
+  exfalso. exact (Qclt_not_le _ _ H Hl).
+Qed.
+
+(* the same when leakage cells exist but every standard connects every pair of ports (no samples) *)
+Lemma exactly_determined_all_connected_never_rejected (tail : Z -> Qc -> Qc) (unknowns : Z) (k : nat)
+  (cells : list (list (bool * bool))) (chisq limit : Qc) :
+  (forall c, In c cells -> forall gc, In gc c -> snd gc = true) -> (limit <= 1)%Qc ->
+  dof_of_standards unknowns (repeat unknowns k) cells = 0%Z /\
+  rejected (pvalue_of tail (dof_of_standards unknowns (repeat unknowns k) cells) chisq) limit = false.
+Proof.
+  intros Hc Hl.
+  assert (E : dof_of_standards unknowns (repeat unknowns k) cells = 0%Z).
+  { rewrite dof_all_connected by exact Hc. pose proof (dof_exactly_determined unknowns k) as D.
+    rewrite dof_count in D. unfold zsum at 2 in D. cbn [map fold_right] in D. lia. }
+  split; [exact E|]. rewrite E. unfold pvalue_of, rejected. simpl.
+  destruct (Qclt_le_dec 1 limit) as [H|H]; [|reflexivity].
   exfalso. exact (Qclt_not_le _ _ H Hl).
 Qed.
 
